@@ -50,7 +50,7 @@ assign: NAME "=" expr
 delete: "DELETE"i "FROM"i NAME where?
 select: "SELECT"i selcols "FROM"i NAME NAME? where? orderby? limit?
 selcols: selcol ("," selcol)*
-?selcol: func | colref | STAR
+?selcol: func | colref | STAR | NUMBER
 func: NAME "(" (STAR | colref) ")"
 where: "WHERE"i cond (BOOL cond)*
 cond: expr CMP expr | expr "IN"i "(" select ")" -> in_cond
@@ -238,7 +238,7 @@ def _build(tree):
             cols = ch[0]
             col_items = cols.children if isinstance(cols, Tree) and cols.data == "selcols" else [cols]
             for c in col_items:
-                st.columns.append("*" if isinstance(c, Token) else expr(c).text())
+                st.columns.append(("*" if c.type == "STAR" else str(c)) if isinstance(c, Token) else expr(c).text())
             rest = ch[1:]
             names = [x for x in rest if isinstance(x, Token) and x.type == "NAME"]
             st.table = str(names[0])
